@@ -207,3 +207,50 @@ c10_malformed!(c10_malformed_unreal2, unreal2_q, 1);
 c10_malformed!(c10_malformed_bedrock, mc_bedrock, 1);
 c10_malformed!(c10_malformed_legacy14, mc_legacy14, 1);
 c10_malformed!(c10_malformed_mindustry, mindustry_q, 1);
+
+/// GameSpy 3: a handshake reply with a foreign session id is malformed, not a
+/// timeout: one attempt, a non-timeout error (session id symbolic, != 1).
+#[cfg(kani)]
+#[kani::proof]
+#[kani::unwind(12)]
+#[kani::stub(alloc::fmt::format, stub_format)]
+#[kani::stub(core::str::from_utf8, stub_from_utf8)]
+fn c10_malformed_gs3_session_id() {
+    let addr = any_addr_v4();
+    let sid: u32 = kani::any();
+    kani::assume(sid != 1);
+    let b = sid.to_be_bytes();
+    world().push_data(vec![0x09, b[0], b[1], b[2], b[3], b'0', 0]);
+    let out = gs3(&addr, settings(2));
+    match out {
+        None => assert!(false),
+        Some(k) => assert!(k != K::PacketReceive && k != K::PacketSend),
+    }
+    assert!(world().n_sends == 1);
+}
+
+/// Valve: a challenged request whose answer is lost is retried as a whole
+/// request unit: with r = 1 and a server that challenges and then stays silent,
+/// exactly request, challenged request, request, challenged request are sent.
+#[cfg(kani)]
+#[kani::proof]
+#[kani::unwind(12)]
+#[kani::stub(alloc::fmt::format, stub_format)]
+fn c10_valve_challenge_then_silence_r1() {
+    use gamedig::protocols::valve::verif_unit as vu;
+    let addr = any_addr_v4();
+    let c: [u8; 4] = kani::any();
+    world().push_data(vec![0xFF, 0xFF, 0xFF, 0xFF, 0x41, c[0], c[1], c[2], c[3]]);
+    world().push_timeout();
+    world().push_data(vec![0xFF, 0xFF, 0xFF, 0xFF, 0x41, c[0], c[1], c[2], c[3]]);
+    world().push_timeout();
+    let r = vu::get_request_data(&addr, settings(1), &gamedig::protocols::valve::Engine::Source(None), 17, 0x55,
+                                 vec![0xFF, 0xFF, 0xFF, 0xFF]);
+    assert!(kind_of(&r) == Some(K::PacketReceive));
+    core::mem::forget(r);
+    assert!(world().n_sends == 4);
+    let plain = [0xFF, 0xFF, 0xFF, 0xFF, 0x55, 0xFF, 0xFF, 0xFF, 0xFF];
+    let chal = [0xFF, 0xFF, 0xFF, 0xFF, 0x55, c[0], c[1], c[2], c[3]];
+    assert!(sent_is(0, &addr, &plain) && sent_is(1, &addr, &chal));
+    assert!(sent_is(2, &addr, &plain) && sent_is(3, &addr, &chal));
+}
